@@ -247,15 +247,6 @@ def run_scenario(ctx: Ctx, case, cases, terms):
         passes.append((before, pobs, after))
         ctx.count(f"flow:pass{i}:{pobs['outcome']['cls']}:{'+'.join(m['method'] for m in pobs['mutations']) or 'quiet'}")
         why = pass_oracle(case, i, pobs, met)
-        if why and why[0] == "raises" and i == 0 and not met and isinstance(case.get("initial"), dict):
-            md = case["initial"].get("metadata")
-            an = md.get("annotations") if isinstance(md, dict) else None
-            if pobs["outcome"]["exc"] == "AttributeError" and not pobs["validate_args"] and \
-                    ((md and not isinstance(md, dict)) or (an and not isinstance(an, dict))):
-                # arbitrary initial object with a truthy non-map metadata / metadata.annotations:
-                # C05's open finding (_extract_last_applied raises), not a C04 matter
-                ctx.count("flow:initial-object-hits-C05-annotations-finding")
-                break
         if why:
             ctx.fail(Failure(signature=f"flow: {case['policy']}: {why[0]}", what=why[1], case=case,
                              observed=[{"outcome": q["outcome"], "mutations": q["mutations"]} for _, q, _ in passes],
